@@ -28,3 +28,21 @@ if b in s:
     print('updated',len(rows))
 else:
     print('markers missing')
+
+# --- section 7.6: what each check claims and what it leaves undecided (from MANIFEST.json + evidence) ---
+m=json.load(open('/verif/MANIFEST.json'))
+rows=[]
+for c in m['checks']:
+    pid=c['property_id']
+    try:
+        ev=json.load(open('/verif/evidence/%s.json'%pid))['coverage']
+    except Exception:
+        ev={}
+    rows.append('#### %s\n\n*Decided by:* %s\n\n*Claimed:* %s\n\n*Not decided / assumed:* %s\n\n*Last run on the unchanged tree:* %s obligations discharged under %s functions; %s known findings; %s undecided.\n'%(
+        pid,c['technique'],c['level_claimed']['text'],c['level_note'],ev.get('discharged','?'),ev.get('functions_under_contract','?'),len(ev.get('known_findings') or []),ev.get('undecided_count','?')))
+s=open(p).read()
+b='<!-- status:begin -->'; e='<!-- status:end -->'
+if b in s:
+    s=s[:s.index(b)+len(b)]+'\n'+'\n'.join(rows)+'\n'+s[s.index(e):]
+    open(p,'w').write(s)
+    print('status updated',len(rows))
